@@ -107,9 +107,246 @@ def shrink(toks, opts, scripting):
     return toks
 
 
-def classify(toks, opts, scripting):
-    """class of a MINIMAL failing stream"""
-    RAW = {"style", "script", "xmp", "iframe", "noembed", "noframes", "noscript"}
+RAW = {"style", "script", "xmp", "iframe", "noembed", "noframes", "noscript"}     # the serializer's rcdataElements
+HTML = (None, gen.HTML_NS)
+
+
+def _is_tag(t):
+    return t["type"] in ("StartTag", "EmptyTag")
+
+
+def _map_tokens(toks, f):
+    """apply f(token copy, stack of open (ns, name)) -> token or None (unchanged) to every token; None if nothing changed"""
+    out, stack, changed = [], [], False
+    for t in toks:
+        r = f(wire.copy_tok(t), stack)
+        if r is not None:
+            changed = True
+        out.append(r if r is not None else t)
+        if t["type"] == "StartTag":
+            stack.append((t.get("namespace"), t["name"]))
+        elif t["type"] == "EndTag" and stack:
+            stack.pop()
+    return out if changed else None
+
+
+# ---- recorded defects that are a precise function of the token stream: each returns the stream the OUTPUT actually spells
+# ---- (what a reader gets), or None when the defect does not apply to this stream
+def d_ns_attr(toks, opts, scripting):
+    """namespaced attributes are written with their local name only"""
+    def f(t, stack):
+        if _is_tag(t) and any(k[0] is not None and lexical.qname(k[0], k[1]) != k[1] for k in t["data"]):
+            t["data"] = type(t["data"])(((None, k[1]), v) for k, v in t["data"].items())
+            return t
+    return _map_tokens(toks, f)
+
+
+def _nl(x):
+    return x.replace("\r\n", "\n").replace("\r", "\n")
+
+
+def d_cr(toks, opts, scripting):
+    """a carriage return in text / attribute values is written raw; any reader turns it into a line feed"""
+    def f(t, stack):
+        if t["type"] in ("Characters", "SpaceCharacters") and "\r" in t["data"]:
+            t["data"] = _nl(t["data"])
+            return t
+        if _is_tag(t) and any("\r" in v for v in t["data"].values()):
+            t["data"] = type(t["data"])((k, _nl(v)) for k, v in t["data"].items())
+            return t
+    return _map_tokens(toks, f)
+
+
+def d_bool(toks, opts, scripting):
+    """minimize_boolean_attributes: the value of an attribute listed in booleanAttributes (for this tag name or for '') is dropped"""
+    from html5lib.constants import booleanAttributes as BA
+    if not opts.get("minimize_boolean_attributes", True):
+        return None
+
+    def f(t, stack):
+        if _is_tag(t):
+            hit = [k for k, v in t["data"].items() if v != "" and (k[1] in BA.get(t["name"], ()) or k[1] in BA.get("", ()))]
+            if hit:
+                t["data"] = type(t["data"])((k, "" if k in hit else v) for k, v in t["data"].items())
+                return t
+    return _map_tokens(toks, f)
+
+
+def d_escape_rcdata(toks, opts, scripting):
+    """escape_rcdata=True: text is escaped everywhere; inside an HTML element whose content a reader takes as raw text
+    (RAWTEXT / script data; noscript when scripting is on) the references are not decoded again"""
+    from xml.sax.saxutils import escape
+    if not opts.get("escape_rcdata"):
+        return None
+    raw = lexical.RAWTEXT | {"script"} | ({"noscript"} if scripting else set())
+
+    def f(t, stack):
+        if t["type"] == "Characters" and stack and stack[-1][0] in HTML and stack[-1][1] in raw and escape(t["data"]) != t["data"]:
+            t["data"] = escape(t["data"])
+            return t
+    return _map_tokens(toks, f)
+
+
+def d_doctype_quote(toks, opts, scripting):
+    """the public identifier is always written between double quotes: a '"' inside it ends it there, and what follows
+    makes the reader drop the rest of the doctype (bogus doctype state)"""
+    def f(t, stack):
+        if t["type"] == "Doctype" and t["publicId"] and '"' in t["publicId"]:
+            t["publicId"] = t["publicId"].split('"', 1)[0]
+            t["systemId"] = None
+            return t
+    return _map_tokens(toks, f)
+
+
+def d_doctype_empty_id(toks, opts, scripting):
+    """an EMPTY public / system identifier is not written at all (the serializer tests the identifier's truth value):
+    it reads back as missing"""
+    def f(t, stack):
+        if t["type"] == "Doctype" and (t["publicId"] == "" or t["systemId"] == ""):
+            t["publicId"] = t["publicId"] or None
+            t["systemId"] = t["systemId"] or None
+            return t
+    return _map_tokens(toks, f)
+
+
+def d_doctype_none_name(toks, opts, scripting):
+    """the dom walker reports a missing doctype name as None (minidom), which '%s' writes as the name 'None'"""
+    def f(t, stack):
+        if t["type"] == "Doctype" and t["name"] is None:
+            t["name"] = "none"
+            return t
+    return _map_tokens(toks, f)
+
+
+TOKEN_DEFECTS = [("namespaced-attribute-prefix-lost", d_ns_attr), ("carriage-return-not-escaped", d_cr),
+                 ("boolean-attribute-value-minimised", d_bool), ("escape-rcdata-option-alters-rawtext", d_escape_rcdata),
+                 ("doctype-identifier-or-name-not-representable", d_doctype_quote),
+                 ("doctype-empty-identifier-not-written", d_doctype_empty_id),
+                 ("doctype-name-none-written-as-None", d_doctype_none_name)]
+TIGHTENED = {c for c, _ in TOKEN_DEFECTS} | {"plaintext-element", "noscript-content-depends-on-reader-scripting",
+                                             "foreign-rawtext-by-bare-name", "script-double-escaped-state"}
+
+
+def first_bad(toks, act, scripting):
+    """(index of the first token at which the expected reading leaves `act`, open elements before that token)"""
+    stack = []
+    for i, t in enumerate(toks):
+        e = lexical.plan(toks[:i + 1], scripting=scripting)[0]
+        ok = len(e) <= len(act) and e[:-1] == act[:len(e) - 1]
+        if ok and e:
+            x, y = e[-1], act[len(e) - 1]
+            ok = (x == y) or (x[0] == "C" and y[0] == "C" and y[1].startswith(x[1]))
+        if not ok:
+            return i, list(stack)
+        if t["type"] == "StartTag":
+            stack.append((t.get("namespace"), t["name"]))
+        elif t["type"] == "EndTag" and stack:
+            stack.pop()
+    return len(toks), list(stack)
+
+
+def passes(toks, opts, scripting):
+    bad, exp, _ = fails([(toks, opts, scripting)])[0]
+    return exp is not None and not bad
+
+
+def plaintext_prediction(toks, opts, scripting):
+    """recorded: after an HTML <plaintext> start tag the reader never leaves the PLAINTEXT state: everything the
+    serializer writes after that tag (escaped text, tags, the end tag) is one run of text"""
+    k = next((i for i, t in enumerate(toks) if t["type"] == "StartTag" and t["name"] == "plaintext" and t.get("namespace") in HTML), None)
+    if k is None:
+        return None
+    try:
+        head, e1 = real_ser(toks[:k + 1], opts)
+        out, e2 = real_ser(toks, opts)
+    except Exception:
+        return None
+    if e1 or e2 or not out.startswith(head):
+        return None
+    rest = _nl(out[len(head):]).replace("\x00", "�")
+    return lexical.plan(toks[:k + 1], scripting=scripting)[0] + ([("C", rest)] if rest else [])
+
+
+def rcdata_child_prediction(toks, opts, scripting):
+    """recorded (C08-rcdata-child): a title / textarea element with a child element or comment (html5lib's own tree builder
+    makes one: '<div><a></div><textarea>x' reconstructs the <a> INSIDE the textarea) is written as markup without an error;
+    a reader is in the RCDATA state there: all of the content is one run of text, with the character references decoded"""
+    import html
+    for k, t in enumerate(toks):
+        if t["type"] == "StartTag" and t["name"] in lexical.RCDATA and t.get("namespace") in HTML:
+            depth, j = 0, None
+            for m in range(k + 1, len(toks)):
+                if toks[m]["type"] == "StartTag":
+                    depth += 1
+                elif toks[m]["type"] == "EndTag":
+                    if depth == 0:
+                        j = m
+                        break
+                    depth -= 1
+            if j is None or all(x["type"] in ("Characters", "SpaceCharacters") for x in toks[k + 1:j]):
+                continue
+            try:
+                head, e1 = real_ser(toks[:k + 1], opts)
+                upto, e2 = real_ser(toks[:j], opts)
+            except Exception:
+                return None
+            if e1 or e2 or not upto.startswith(head):
+                return None
+            inner = html.unescape(_nl(upto[len(head):]))
+            seen = [{"type": "Characters", "data": inner}] if inner else []
+            return lexical.plan(toks[:k + 1] + seen + toks[j:], scripting=scripting)[0]
+    return None
+
+
+def classify(toks, opts, scripting, exp=None, act=None):
+    """class of a MINIMAL failing stream.  A recorded (known-finding) class is returned only when that recorded defect
+    explains the WHOLE difference between the expected and the actual reading of the output; otherwise a generic class."""
+    if exp is None or act is None:
+        _, exp, act = fails([(toks, opts, scripting)])[0]
+    if exp is not None and act is not None:
+        # 1. one recorded token-level defect turns the expected reading into exactly the actual one
+        for cls, f in TOKEN_DEFECTS:
+            t2 = f(toks, opts, scripting)
+            if t2 is not None and lexical.plan(t2, scripting=scripting)[0] == act:
+                return cls
+        # 2. several of them together (a stream that could not be shrunk to a single cause), and nothing else
+        t2, applied = toks, []
+        for cls, f in TOKEN_DEFECTS:
+            r = f(t2, opts, scripting)
+            if r is not None:
+                t2, applied = r, applied + [cls]
+        if len(applied) > 1 and lexical.plan(t2, scripting=scripting)[0] == act:
+            return applied[0]
+        # 3. recorded defects of an element context
+        if plaintext_prediction(toks, opts, scripting) == act:
+            return "plaintext-element"
+        if rcdata_child_prediction(toks, opts, scripting) == act:
+            return "element-child-of-rcdata-element-no-error"
+        i, stack = first_bad(toks, act, scripting)
+        inside = lambda pred: any(pred(ns, n) for ns, n in stack)
+        if inside(lambda ns, n: n == "noscript" and ns in HTML):
+            # the reading leaves the expectation INSIDE a noscript element, and the same stream with that element renamed reads back
+            ren = [dict(t, name="div") if t.get("name") == "noscript" and t.get("namespace") in HTML else t for t in toks]
+            if passes(ren, opts, scripting):
+                return "noscript-content-depends-on-reader-scripting"
+        if stack and stack[-1][0] not in HTML and stack[-1][1] in RAW and i < len(toks) and \
+                toks[i]["type"] == "Characters" and not opts.get("escape_rcdata"):
+            # text of a FOREIGN style/script/... written raw: escaping it (escape_rcdata) makes the same stream read back
+            if passes(toks, dict(opts, escape_rcdata=True), scripting):
+                return "foreign-rawtext-by-bare-name"
+        if stack and stack[-1] in ((None, "script"), (gen.HTML_NS, "script")):
+            # script text containing '<!--' that swallows the end tag: without the comment opener the stream reads back
+            txt = [t for t in toks if t["type"] == "Characters" and "<!--" in t["data"]]
+            if txt:
+                cut = [dict(t, data=t["data"].replace("<!--", "<!-")) if t["type"] == "Characters" else t for t in toks]
+                if passes(cut, opts, scripting):
+                    return "script-double-escaped-state"
+    cls = classify_features(toks, opts, scripting)
+    return cls + ":not-explained-by-the-recorded-defect" if cls in TIGHTENED else cls
+
+
+def classify_features(toks, opts, scripting):
+    """descriptive label from the features of a minimal failing stream (never used for a recorded class)"""
     tags = [t for t in toks if t["type"] in ("StartTag", "EmptyTag")]
     names = [(t.get("namespace"), t.get("name")) for t in tags]
     texts = [t["data"] for t in toks if t["type"] in ("Characters", "SpaceCharacters")]
@@ -191,7 +428,7 @@ def run(ctx):
             budget -= 1
             small = shrink(toks, opts, scripting)
             _, exp2, act2 = fails([(small, opts, scripting)])[0]
-            cls = classify(small, opts, scripting)
+            cls = classify(small, opts, scripting, exp2, act2)
             ctx.fail(cls, "serializer reported no error but its output does not re-tokenise to the tokens it was given",
                      {"input": text, "options": opts, "scripting": scripting, "minimal_tokens": repr(small)[:1200],
                       "expected": repr(exp2)[:500], "retokenised": repr(act2)[:500]})
@@ -199,7 +436,8 @@ def run(ctx):
 
 def witness_case(ctx, w):
     sys.path.insert(0, lean.VERIF + "/tools")
-    toks = gen.walk_real(gen.parse_real(w["html"], tb="etree", full=True), "etree")
+    kind = w.get("walker", "etree")
+    toks = gen.walk_real(gen.parse_real(w["html"], tb=kind, full=True), kind)
     opts = dict(w.get("options", {}), omit_optional_tags=False)
     scripting = w.get("scripting", True)
     bad, exp, act = fails([(toks, opts, scripting)])[0]
